@@ -106,6 +106,68 @@ def impl_molecule(felez, c, fc, m, fm, zgf):
     return _outcome(build)
 
 
+# ---- the same specification handed over in other legal ways (direct entry point): every verbosity level, numpy
+# scalars instead of Python numbers, tuples / arrays instead of lists, integer element counts, keyword arguments
+
+VARIANTS = ["verbose=0", "verbose=1", "verbose=2", "np-scalars", "tuples", "arrays", "keywords"]
+
+
+def _np_num(x):
+    if x is None or isinstance(x, bool):
+        return x
+    if isinstance(x, int):
+        return np.int64(x)
+    if isinstance(x, float):
+        return np.float64(x)
+    return x
+
+
+def impl_variant(variant, felez, c, fc, m, fm, zgf):
+    from qcelemental.molparse import validate_and_fill_chgmult
+    flat = [z for f in felez for z in f]
+    integral = all(float(z).is_integer() for z in flat)
+    zeff = np.array(flat, dtype=float)
+    seps = np.array(list(itertools.accumulate(len(f) for f in felez))[:-1], dtype=int)
+    fc, fm = list(fc), list(fm)
+    kw = dict(zero_ghost_fragments=zgf, verbose=-1)
+    if variant.startswith("verbose="):
+        kw["verbose"] = int(variant[8:])
+        if kw["verbose"] == 1:
+            del kw["verbose"]                       # the default
+    elif variant == "np-scalars":
+        c, m, fc, fm = _np_num(c), _np_num(m), [_np_num(x) for x in fc], [_np_num(x) for x in fm]
+        if integral:
+            zeff = np.array([int(z) for z in flat], dtype=np.int32)
+        seps = seps.astype(np.int16)
+    elif variant == "tuples":
+        fc, fm, seps = tuple(fc), tuple(fm), [int(x) for x in seps]
+        if integral:
+            zeff = np.array([int(z) for z in flat], dtype=np.int64)
+    elif variant == "arrays":
+        fc = np.array(fc, dtype=object if any(x is None for x in fc) else None)
+        fm = np.array(fm, dtype=object if any(x is None for x in fm) else None)
+        zeff = np.asfortranarray(np.array([flat, flat], dtype=float).T)[:, 1]       # a strided view
+    elif variant == "keywords":
+        return _outcome(lambda: validate_and_fill_chgmult(fragment_multiplicities=fm, molecular_multiplicity=m,
+                                                          fragment_charges=fc, molecular_charge=c,
+                                                          fragment_separators=seps, zeff=zeff, **kw))
+    return _outcome(lambda: validate_and_fill_chgmult(zeff, seps, c, fc, m, fm, **kw))
+
+
+def _same_outcome(a, b):
+    """equal canonical outcomes (numpy scalars compare by value; the multiplicities must stay integers)"""
+    if a[0] != b[0]:
+        return False
+    if a[0] == "Err":
+        return a[1] == b[1]
+    (c1, fc1, m1, fm1), (c2, fc2, m2, fm2) = a[1], b[1]
+    try:
+        return bool(c1 == c2 and list(fc1) == list(fc2) and m1 == m2 and list(fm1) == list(fm2)
+                    and all(_is_int(x) for x in [m1] + list(fm1)))
+    except Exception:
+        return False
+
+
 ENTRY = {"validate_and_fill_chgmult": impl_call, "from_arrays": impl_from_arrays, "Molecule": impl_molecule}
 
 
@@ -393,8 +455,57 @@ def gen_cases(ctx):
                 felez = [list(flat[:sep]), list(flat[sep:])]
                 c, f1, m, m2 = args
                 cases.append(("resplit", (felez, c, [f1, None], m, [None, m2], False)))
+    # stream E: fragments WITHOUT atoms (repeated / leading / trailing separators: np.split yields empty pieces, which
+    # count as ghost fragments), alone, next to real and next to ghost fragments
+    for _ in range(4000 if ctx.thorough else 500):
+        nfr = rng.choice([1, 2, 2, 3, 3, 4])
+        felez = [[rng.choice([0, 1, 2, 7, 8, 10]) for _a in range(rng.choice([0, 0, 1, 2]))] for _f in range(nfr)]
+        pc = rng.choice([0.0, 0.3, 0.6])
+        cases.append(("emptyfrag", (felez, rng.choice(chg) if rng.random() < pc else None,
+                                    [rng.choice(chg) if rng.random() < pc else None for _f in range(nfr)],
+                                    rng.choice(mult) if rng.random() < pc else None,
+                                    [rng.choice(mult) if rng.random() < pc else None for _f in range(nfr)], rng.random() < 0.4)))
+    # stream F: far from the origin -- heavy atoms, many atoms per fragment, large charges and multiplicities; and
+    # stream G: five and six fragments.  Both start from an assignment that obeys the rules and blank out / perturb
+    # some of its entries (about half of the cases are completed, the rest refused)
+    def blanked(felez, cr, mmax, keep):
+        fcs, fms = [], []
+        for f in felez:
+            z = sum(f)
+            if all(x == 0 for x in f):
+                fcs.append(0)
+                fms.append(1)
+                continue
+            cc = rng.randint(-cr, min(cr, z))
+            ne = z - cc
+            top = min(ne + 1, mmax)
+            ok_m = [mm for mm in range(1, top + 1) if mm % 2 != ne % 2] or [1]
+            fcs.append(cc)
+            fms.append(rng.choice(ok_m[:3] + ok_m[-2:]))
+        ctot, hs = sum(fcs), 1 + sum(x - 1 for x in fms)
+        mtot = hs if rng.random() < 0.8 else max(1, hs - 2 * rng.randint(1, 3))
+        if rng.random() < 0.15:                       # perturb one entry (mostly towards a refusal)
+            k = rng.randrange(len(felez))
+            if rng.random() < 0.5:
+                fcs[k] += rng.choice([-1, 1, 2])
+            else:
+                fms[k] += rng.choice([-1, 1])
+        hide = lambda x: x if rng.random() < keep else None
+        return (felez, hide(ctot), [hide(x) for x in fcs], hide(mtot), [hide(x) for x in fms], rng.random() < 0.25)
+    for _ in range(4000 if ctx.thorough else 600):
+        nfr = rng.choice([1, 2, 2, 3])
+        felez = [[rng.choice([0, 26, 54, 79, 92, 118, 200]) for _a in range(rng.choice([1, 2, 6]))] for _f in range(nfr)]
+        cases.append(("big", blanked(felez, rng.choice([3, 40, 400]), rng.choice([4, 12, 60]), rng.choice([0.5, 0.8, 1.0]))))
+    for _ in range(600 if ctx.thorough else 120):
+        nfr = rng.choice([5, 5, 6])
+        felez = [[rng.choice([0, 1, 2, 7, 8, 11])] for _f in range(nfr)]
+        cases.append(("5frag", blanked(felez, 2, 4, rng.choice([0.7, 0.85, 1.0]))))
     # corpus: docstring examples and edge cases found earlier
     corpus = [
+        ([[]], None, [None], None, [None], False),            # no atoms at all: one empty (ghost) fragment
+        ([[], [1]], None, [None, None], None, [None, None], False),
+        ([[1], []], 1, [None, None], None, [None, None], True),
+        ([[8, 1, 1], [], [0]], -1, [None, None, None], None, [None, None, None], False),
         ([[7], [10], [7]], 1, [None, None, None], 4, [None, 3, None], False),
         ([[0, 0]], 1, [None], None, [None], False),
         ([[0], [2], [0]], 1, [None, None, None], None, [None, None, None], False),
@@ -590,6 +701,20 @@ def correspond(ctx):
             if bad:
                 corr.failures.append({"stream": "oracle-" + entry, "case": {"input": case, "entry": entry}, "what": bad,
                                       "observed": out})
+    # the same specification handed over in other legal ways: verbosity levels (0, the default 1, 2), numpy scalars,
+    # tuples / arrays for the lists, integer element counts, keyword arguments -- same completion required
+    nvar = 9000 if ctx.thorough else 2200
+    for k, case in (head + pool)[:nvar]:
+        ref = memo[repr(case)]
+        for variant in VARIANTS:
+            out = impl_variant(variant, *case)
+            corr.count("variant-" + variant)
+            bad = oracle(case, out)
+            if bad is None and not _same_outcome(out, ref):
+                bad = f"called with {variant} the specification is completed differently from the plain call: {ref}"
+            if bad:
+                corr.failures.append({"stream": "oracle-variant", "case": {"input": case, "variant": variant}, "what": bad,
+                                      "observed": out})
     # answers handed out earlier (and argument objects handed in) are modified in place, then the identical query is
     # issued again with fresh equal arguments: a memo that shares its lists with the caller shows up here
     npro = 6000 if ctx.thorough else 1500
@@ -652,6 +777,12 @@ def _judge(case_d):
         else:
             bad = oracle(case, outs[0])
         return outs, bad
+    if case_d.get("variant"):
+        out, ref = impl_variant(case_d["variant"], *case), impl_call(*case)
+        bad = oracle(case, out)
+        if bad is None and not _same_outcome(out, ref):
+            bad = f"called with {case_d['variant']} the specification is completed differently from the plain call: {ref}"
+        return out, bad
     out = run_entry(entry, case)
     bad = oracle(case, out) or oracle_extra(case, out, lambda c: run_entry(entry, c)) or oracle_refusal(case, out)
     if not bad and entry:
@@ -691,7 +822,8 @@ LEVEL_TEXT = (
     "parity total and per fragment -- for fractional electron counts parity is no constraint, C05_parity_rule_rational --, ghost "
     "fragments (0,1), high-spin unless fully specified), C05_inputs_kept_verbatim + C05_ghost_override_keeps_real_fragments (what "
     "zero_ghost_fragments changes), C05_fixed_point(_rational), C05_accepts_valid_full_spec, C05_accepts_spec(_rational) (acceptance "
-    "as the exact converse of soundness), C05_default_neutral_lowspin, C05_default_zgf_partial, C05_fails_closed(_rational), "
+    "as the exact converse of soundness), C05_default_neutral_lowspin, C05_default_zgf_partial, C05_default_zgf + C05_default_entries (blank specification with "
+    "zero_ghost_fragments, ghost fragments or not), C05_fails_closed(_rational), "
     "C05_error_iff_no_solution_in_searched_space / C05_error_iff_rational + C05_searched_space (a validation error is raised exactly "
     "when a non-positive multiplicity was supplied or no assignment of the searched space, characterised as a proposition, obeys the "
     "rules), C05_complete_unrestricted_refuted (the unrestricted reading is false: documented S1-S7 search), "
@@ -699,13 +831,16 @@ LEVEL_TEXT = (
     "C05_generated_rules_are_the_model (the helper functions translated from chgmult.py on every run equal the model's). "
     "The models are tied to chgmult.py on every run by exact differential execution over the exhaustive 1-fragment scope, an "
     "exhaustive/sampled 2-fragment scope, sampled 3-4 fragment systems, sampled fractional-charge systems (dyadic values, "
-    "float-typed multiplicities, fractional electron counts), re-split/determinism (history) streams, the same specifications "
-    "through from_arrays(...) and Molecule(...), and the property oracle (exact rationals) on every answer of every entry point.")
+    "float-typed multiplicities, fractional electron counts), fragments without atoms (repeated separators), heavy / highly charged / "
+    "high-multiplicity systems, 5-6 fragment systems, re-split/determinism (history) streams, the same specifications "
+    "through from_arrays(...) and Molecule(...), the same specifications handed over in other legal ways (verbose = 0 / default / 2, "
+    "numpy scalars, tuples, object/numeric arrays, strided and integer zeff, keyword arguments), and the property oracle (exact "
+    "rationals) on every answer of every entry point and variant.")
 LEVEL_NOTE = (
     "Clause map: kept values / c = sum fc / positive multiplicity, sufficiency, parity / ghost (0,1) / high-spin = C05_sound "
     "(+ _rational, + the two adjust theorems); fed back unchanged = C05_fixed_point; valid full spec accepted = "
     "C05_accepts_valid_full_spec, C05_accepts_spec; blank default = C05_default_neutral_lowspin (zgf=False), C05_default_zgf_partial "
-    "(zgf=True without ghost fragment; with a ghost fragment only correspondence/oracle); error instead of a violating answer = "
+    "(zgf=True without ghost fragment), C05_default_zgf (zgf=True in every case, incl. ghost fragments), C05_default_entries; error instead of a violating answer = "
     "C05_fails_closed + C05_sound, and exactly when = C05_error_iff_no_solution_in_searched_space; same input same answer = "
     "definitional for the model, determinism/re-split/entry-point streams for the implementation. Integrality of multiplicities is by "
     "typing; non-integral multiplicities are outside the model (observed: the code raises TypeError from range() when a non-integral "
